@@ -145,6 +145,45 @@ def run(tier, rep):
     rep.coverage["ir_programs_too_deep_for_json_reader"] = skipped
     if stage_counts.get("mono:agree", 0) < 300 or stage_counts.get("anf:agree", 0) < 300:
         raise ToolError(f"vacuity: IR stages agreed on too few programs: {stage_counts}")
+    # ---- (d) the web playground's own pipeline (crates/wasm-app, compile_to_go): for every accepted single-file program its Go
+    # must be the Go of the compile path, or else mean the same (GoSem against the program's expected outcome)
+    wtodo = [(i, p) for i, p in todo.items() if i in expect and (i.startswith("fam:") or i.startswith("corpus:")) and os.path.basename(os.path.dirname(p)) != ""]
+    wtodo = [(i, p) for i, p in wtodo if len([f for f in os.listdir(os.path.dirname(p)) if f.endswith(".gom")]) == 1]
+    wres = gv_robust("web", [{"id": i, "text": open(p, encoding="utf-8").read(), "fns": ["compile_to_go"]} for i, p in wtodo])
+    pgo = {a["id"]: a.get("go") for a in gv_parallel("compile", [{"id": i, "path": p} for i, p in wtodo])}
+    web_counts = {"identical": 0, "rejected-by-the-playground": 0, "different-text": 0, "different-text-same-meaning": 0}
+    wrecs = []
+    for (i, p), r in zip(wtodo, wres):
+        o = (r.get("out") or {}).get("compile_to_go", {})
+        status, out, ident = expect[i]
+        if r.get("fatal") or r.get("verdict") == "abort" or "panic" in o:
+            rep.violation(f"playground:panic:{ident}", {"at": r.get("at") or o.get("panic"), "msg": r.get("msg") or o.get("msg")}, replay={"path": p})
+        elif o.get("ok", "").startswith("error"):
+            web_counts["rejected-by-the-playground"] += 1          # e.g. imports: not a statement about accepted programs
+        elif o.get("ok") == pgo.get(i):
+            web_counts["identical"] += 1
+        else:
+            web_counts["different-text"] += 1
+            rec, err = gopipe.go_record("web:" + i, o["ok"], out if status == "ok" else None)
+            if err:
+                rep.violation(f"playground:go-does-not-parse:{ident}", {"error": err, "go": o["ok"][-800:]}, replay={"path": p})
+                continue
+            rec["ast"] = gohoist.hoist(rec["ast"])
+            wrecs.append((rec, i))
+    if wrecs:
+        wsem, st4 = gopipe.run_sharded("GoSem", "GoSem.cfg", [r_ for r_, _ in wrecs], extra_env={"MAXSTEPS": 60000}, name="c01-web")
+        for rec, i in wrecs:
+            status, out, ident = expect[i]
+            g = wsem.get(rec["name"])
+            if g is None or g["status"] in ("unsupported", "inconclusive"):
+                continue
+            if g["status"] != status or (status == "ok" and not g["agree"]):
+                rep.violation(f"playground:output:{ident}", {"expected_status": status, "go_status": g["status"], "why": g.get("why")}, replay={"path": todo[i]})
+            else:
+                web_counts["different-text-same-meaning"] += 1
+    rep.coverage["playground_go"] = web_counts
+    if web_counts["identical"] + web_counts["different-text-same-meaning"] < 300:
+        raise ToolError(f"vacuity: playground Go compared for too few programs: {web_counts}")
     rep.coverage["states"] += st3
     rep.coverage["programs"] += len(cases)
     rep.coverage["disagreements_checked"] += ok
